@@ -5,6 +5,7 @@ use serde_json::Value;
 pub fn main(mode: &str, args: &[String]) -> i32 {
     match mode {
         "execd" => execd(args),
+        "c11" => c11(args),
         other => {
             eprintln!("vworker: unknown mode {other:?}");
             2
@@ -21,5 +22,61 @@ fn execd(args: &[String]) -> i32 {
         map.insert(k, kv[1].as_str().unwrap().to_string());
     }
     libcnb::exec_d::write_exec_d_program_output(libcnb_data::exec_d::ExecDProgramOutput::new(map));
+    0
+}
+
+/// C11: args = [root, route, drop|keep]; runs one deletion route and prints {"ok":..,"err":..,"dropped":..}
+#[allow(deprecated)]
+fn c11(args: &[String]) -> i32 {
+    use crate::layermodel::{HB, HErr, make_context};
+    use libcnb::build::BuildContext;
+    use libcnb::data::layer::LayerName;
+    use libcnb::data::layer_content_metadata::LayerTypes;
+    use libcnb::generic::GenericMetadata;
+    use libcnb::layer::{CachedLayerDefinition, ExistingLayerStrategy, InvalidMetadataAction, Layer, LayerData, LayerResult, LayerResultBuilder, MetadataMigration, RestoredLayerAction, UncachedLayerDefinition};
+    let root = std::path::PathBuf::from(&args[0]);
+    let mut dropped = false;
+    if args[2] == "drop" {
+        unsafe {
+            let ok = libc::setgroups(0, std::ptr::null()) == 0 && libc::setgid(65534) == 0 && libc::setuid(65534) == 0;
+            dropped = ok && libc::geteuid() == 65534;
+        }
+        if !dropped {
+            println!("{}", serde_json::json!({"ok": false, "err": "setuid failed", "dropped": false}));
+            return 0;
+        }
+    }
+    struct Recreate;
+    impl Layer for Recreate {
+        type Buildpack = HB;
+        type Metadata = GenericMetadata;
+        fn types(&self) -> LayerTypes {
+            LayerTypes { build: true, launch: false, cache: true }
+        }
+        fn create(&mut self, _c: &BuildContext<HB>, _p: &std::path::Path) -> Result<LayerResult<GenericMetadata>, HErr> {
+            LayerResultBuilder::new(None).build()
+        }
+        fn existing_layer_strategy(&mut self, _c: &BuildContext<HB>, _d: &LayerData<GenericMetadata>) -> Result<ExistingLayerStrategy, HErr> {
+            Ok(ExistingLayerStrategy::Recreate)
+        }
+        fn migrate_incompatible_metadata(&mut self, _c: &BuildContext<HB>, _m: &GenericMetadata) -> Result<MetadataMigration<GenericMetadata>, HErr> {
+            Ok(MetadataMigration::RecreateLayer)
+        }
+    }
+    // the directories exist already; make_context only (re)creates missing ones
+    let bc = make_context(&root);
+    let name: LayerName = "lay".parse().unwrap();
+    let res: Result<(), String> = match args[1].as_str() {
+        "Uncached" => bc.uncached_layer(&name, UncachedLayerDefinition { build: true, launch: false }).map(|_| ()).map_err(|e| format!("{e:?}")),
+        "CachedDelete" => bc
+            .cached_layer(
+                &name,
+                CachedLayerDefinition { build: true, launch: false, invalid_metadata_action: &|_| InvalidMetadataAction::DeleteLayer, restored_layer_action: &|_: &GenericMetadata, _| RestoredLayerAction::DeleteLayer },
+            )
+            .map(|_| ())
+            .map_err(|e| format!("{e:?}")),
+        _ => bc.handle_layer(name, Recreate).map(|_| ()).map_err(|e| format!("{e:?}")),
+    };
+    println!("{}", serde_json::json!({"ok": res.is_ok(), "err": res.err(), "dropped": dropped}));
     0
 }
